@@ -103,7 +103,7 @@ func verifHexDigit(c byte) bool {
 }
 
 // Words of the layout that are also valid Docker repository path components.
-var verifRepoKeywords = []string{"sha256", "tags", "data", "blobs", "link", "hashstates", "revisions", "startedat", "current", "index", "v2", "docker", "registry"}
+var verifRepoKeywords = []string{"repositories", "sha256", "tags", "data", "blobs", "link", "hashstates", "revisions", "startedat", "current", "index", "v2", "docker", "registry"}
 
 func verifRepoBytes(n int) []byte {
 	b := verif.Bytes("repo", n)
@@ -139,8 +139,9 @@ func verifRepo(nkw int) string {
 	return string(b[:1]) + "/" + kw() + "/" + string(b[1:])
 }
 
-// Tags ([A-Za-z0-9_][A-Za-z0-9_.-]{0,127}) that coincide with layout words.
-var verifTagKeywords = []string{"current", "link", "index", "tags", "sha256"}
+// Tags ([A-Za-z0-9_][A-Za-z0-9_.-]{0,127}) that coincide with layout words or
+// layout directory names.
+var verifTagKeywords = []string{"_layers", "current", "link", "_manifests", "_uploads", "index", "tags", "sha256"}
 
 func verifTagChars(b []byte) {
 	for j := range b {
@@ -260,7 +261,7 @@ func verifCheckBuilt(p verifParts, checkRepo bool) {
 func verifParts0(kind int) verifParts {
 	p := verifParts{kind: kind}
 	if verifHasTag(kind) {
-		p.tag = verifTag(verif.Bound("tag_keywords", 3, len(verifTagKeywords)), verif.Bound("tag_min", 2, 1), verif.Bound("tag_max", 2, 3))
+		p.tag = verifTag(verif.Bound("tag_keywords", 5, len(verifTagKeywords)), verif.Bound("tag_min", 2, 1), verif.Bound("tag_max", 2, 3))
 	}
 	if verifHasDigest(kind) {
 		p.hex = verifHex()
@@ -279,13 +280,13 @@ func verifParts0(kind int) verifParts {
 
 // VerifBuiltPathsParse: every kind of layout path built from valid components
 // is classified as that kind and the extractors return the components.
-// Repository names here do not contain a "repositories" component and tags are
-// not "_manifests"/"_layers"/"_uploads" (see VerifFindingGetRepo*).
+// Repository components include the word "repositories" and tags include the
+// layout directory names (the inputs of FINDINGS.md F1/F2, fixed in b28a4cf).
 func VerifBuiltPathsParse() {
 	kind := verif.Choice("kind", verifNumKinds)
 	p := verifParts0(kind)
 	if verifHasRepo(kind) {
-		p.repo = verifRepo(verif.Bound("repo_keywords", 4, len(verifRepoKeywords)))
+		p.repo = verifRepo(verif.Bound("repo_keywords", 4, 8))
 	}
 	verifCheckBuilt(p, true)
 }
